@@ -2,11 +2,15 @@
 # tools/try_seed.sh <seed-id> <check-id> [tier]   - apply a seeded change to /repo, run a check, undo it.
 HERE="$(cd "$(dirname "$0")/.." && pwd)"
 S=$1; C=$2; T=${3:-quick}
-[ -z "$(git -C /repo status --porcelain -- src)" ] || { echo "/repo not clean"; exit 2; }
-git -C /repo apply --3way "$HERE/seeded/$S/patch.diff" 2>/dev/null || git -C /repo apply "$HERE/seeded/$S/patch.diff" || { echo "patch failed"; git -C /repo checkout -- .; exit 2; }
+[ -z "$(git -C /repo status --porcelain)" ] || { echo "/repo not clean"; exit 2; }
+if ! git -C /repo apply --check "$HERE/seeded/$S/patch.diff" 2>/dev/null; then
+  echo "patch does not apply to the current tree (needs rebasing): $S"; exit 2
+fi
+git -C /repo apply "$HERE/seeded/$S/patch.diff"
+mkdir -p "$HERE/.cache"
 cp "$HERE/evidence/$C.json" "$HERE/.cache/ev.$C.bak" 2>/dev/null
 "$HERE/check" $C --tier $T > "$HERE/.cache/try.$S.$C.out" 2>&1; RC=$?
-git -C /repo reset -q; git -C /repo checkout -- .
+git -C /repo checkout -- .
 cp "$HERE/.cache/ev.$C.bak" "$HERE/evidence/$C.json" 2>/dev/null
-grep -E "VIOLATION|INCONCLUSIVE|violated:" "$HERE/.cache/try.$S.$C.out" | head -6
+grep -E "VIOLATION|INCONCLUSIVE|violated:" "$HERE/.cache/try.$S.$C.out" | head -${LINES_SHOWN:-4}
 echo "seed=$S check=$C exit=$RC"
